@@ -107,6 +107,9 @@ theorem C15_handlers_cut :
     Robust.Gen.Exprs.fact "post.msg.Data" = "firstLine(req.Data)" ∧
     Robust.Gen.Exprs.fact "delete.msg.Data" = "firstLine(req.Quitmessage)" ∧
     Robust.Gen.Exprs.fact "firstLine.cutset" = "\r\n\x00" ∧
-    Robust.Gen.Exprs.fact "firstLine.cut" = "s[:idx]" := by decide
+    Robust.Gen.Exprs.fact "firstLine.cut" = "s[:idx]" ∧
+    Robust.Gen.Exprs.fact "firstLine.scanned" = "s" ∧
+    Robust.Gen.Exprs.fact "firstLine.body" =
+      "{ if idx := strings.IndexAny(s, \"\\r\\n\\x00\"); idx > -1 { return s[:idx] } return s }" := by decide
 
 end Robust.Props.C15
